@@ -626,6 +626,17 @@ func (bal *Balancer) balanceBlock(blkid arvados.SizedDigest, blk *BlockState) ba
 	// class that's currently underreplicated -- in that case we
 	// won't want to trash any replicas.
 	underreplicated := false
+	for class, desired := range blk.Desired {
+		if desired > 0 && len(bal.mountsByClass[class]) == 0 {
+			// No mount offers this storage class, so the
+			// desired replication can't be achieved (the
+			// loop below never looks at this class).
+			// Treat the block as underreplicated rather
+			// than trashing replicas a collection still
+			// refers to.
+			underreplicated = true
+		}
+	}
 
 	unsafeToDelete := make(map[int64]bool, len(slots))
 	for _, class := range bal.classes {
